@@ -714,6 +714,24 @@ theorem add_flow_agrees_proved : add_flow_agrees := by
 example : addAdderOk { ing := 2 } [(b!"pin", b!"false")] = true ∧
     addScript { ing := 2, fails := [.unpin] } [(b!"pin", b!"false")] 8 = true := by decide
 
+/-- pin/ls answer content of the handler model (round 8 final): the keys listed are the whole pinset when no `arg` is given,
+    else the one decoded CID; nothing is listed on an error arm -/
+theorem pinLs_model_content (e : Env) (q : List (Bytes × Bytes)) :
+    (pinLsH e q).items =
+      if (pinLsH e q).status == 200 then
+        (if (qGet q b!"arg").isEmpty then e.pins else (e.cd (qGet q b!"arg")).toList)
+      else [] := by
+  cases he : (qGet q b!"arg").isEmpty <;> cases hc : e.cd (qGet q b!"arg") <;> cases hg : e.fail .pinGet <;>
+    cases hf : e.fail .pins <;> simp [pinLsH, he, hc, hg, hf]
+
+/-- pin/ls reads NOTHING of the query but the first `arg`: no `type=` filter, whatever else is sent (every pin is
+    listed, as "recursive", for `type=direct` too) -/
+theorem pinLs_model_only_arg (e : Env) (q q' : List (Bytes × Bytes)) (h : qGet q b!"arg" = qGet q' b!"arg") :
+    pinLsH e q = pinLsH e q' := by
+  simp [pinLsH, h]
+
+example : (pinLsH { pins := [[1], [2]] } [(b!"type", b!"direct")]).items = [[1], [2]] := by decide
+
 /-- pin/update with at least two arguments -/
 theorem pinUpdate_flow_agrees (e : Env) (q : List (Bytes × Bytes)) (v : Nat → Bool) (frm tgt : Bytes) (rest : List Bytes)
     (hq : qAll q b!"arg" = frm :: tgt :: rest) (h18 : v 18 = false) (h19 : v 19 = false)
